@@ -91,6 +91,8 @@ def build(S, r):
     if "import" in S:
         head += '<%%namespace file="/c04lib_%s.html" import="%s"/>' % (name, name)
     head += '<%def name="w()">${caller.body()}</%def><%def name="w2(a)">${a}</%def>'
+    # a second module-level block after everything else: names of every <%! %> block are module-level, not only the last
+    head += "<%! c04_other_module_name = 1 %>"
     body = ""
     if "body" in S:
         body += "<%% %s = 'body' %%>" % name
@@ -404,6 +406,10 @@ STATEMENT_FORMS = {
     "def-kwonly-default": "def _f(*, a=V):\n    return a\nout = _f()",
     "nested-def": "def _f():\n    def _g():\n        return V\n    return _g()\nout = _f()",
     "class-body": "class _C:\n    a = V\nout = _C.a",
+    "class-attr-shadow": "class _C:\n    V = 'attr'\nout = _C.V + V",
+    "class-method-shadow": "class _C:\n    def V(self):\n        return 'm'\nout = _C().V() + V",
+    "class-in-def-shadow": "def _f():\n    class _C:\n        V = 'a'\n    return _C.V + V\nout = _f()",
+    "class-base": "class _B:\n    pass\nclass _C(_B, metaclass=type(type(V))):\n    a = 1\nout = V",
     "decorator": "def _d(f):\n    return lambda: V\n@_d\ndef _f():\n    pass\nout = _f()",
     "augassign": "out = 'x'\nout += V",
     "tuple-unpack": "out, _o = V, 1",
